@@ -290,6 +290,14 @@ class ContractEval:
         for ins in b["instrs"]:
             if ins["op"] == "Phi" and ins.get("comment") and ins["n"] in regs:
                 env[ins["comment"]] = TV(regs[ins["n"]], self.ev.ty_of(ins["t"]))
+        # values that are not phis have no source name in go/ssa: the k-th make([]T) of the function is $make<k>
+        k = 0
+        for blk in f.blocks:
+            for ins in blk["instrs"]:
+                if ins["op"] == "MakeSlice":
+                    if ins["n"] in regs:
+                        env.setdefault("$make%d" % k, TV(regs[ins["n"]], self.ev.ty_of(ins["t"])))
+                    k += 1
         for n, v in regs.items():
             env.setdefault("$" + n, TV(v, None))
         return env
